@@ -2,10 +2,11 @@
 
 import ast
 
+from ..absint import NONE, NOTNONE, TOP, DefaultDomain, Interp, State, val
 from ..astutil import FUNC_TYPES, attr_chain, dotted, norm, walk_shallow
 from ..cfg import live_nodes, node_calls
 from ..loader import AnalysisError
-from .common import RUNTEST, TESTCASE, TWRUNTEST, cfg_of, has_kw, kw_value, module_function, nodes_calling, own_method, str_const
+from .common import literal_elements, RUNTEST, TESTCASE, TWRUNTEST, cfg_of, has_kw, kw_value, module_function, nodes_calling, own_method, str_const
 
 EXPLANATION = (
     "R-DETAILS-PASSED: every outcome call made on behalf of a run by testcase.py, runtest.py and "
@@ -23,6 +24,150 @@ EXPLANATION = (
 )
 
 OUTCOMES = {"addSuccess", "addError", "addFailure", "addSkip", "addExpectedFailure", "addUnexpectedSuccess"}
+
+
+class _UniqueDomain(DefaultDomain):
+    """Value flow of "this name is known not to be a key of that details dict".  A membership test
+    that comes out `not in` turns the tested local into ("fresh", <dict>); any other assignment makes
+    it an ordinary value again.  Details dicts are values too (("ddict", owner)), so the fact survives
+    helper functions that take the dict as a parameter and return the unused name."""
+
+    def __init__(self, classes):
+        self.classes = classes
+        self.writes = {}
+
+    def call(self, interp, call, st, fr):
+        d = dotted(call.func) or ""
+        f = call.func
+        if isinstance(f, ast.Attribute) and f.attr == "getDetails":
+            return [val(("ddict", dotted(f.value) or "?"), st)]
+        if d in ("itertools.count", "count"):
+            return [val(("infinite",), st)]
+        if isinstance(f, ast.Attribute) and f.attr == "setdefault" and len(call.args) == 2:
+            return interp.eval(call.args[1], st, fr)
+        if isinstance(f, ast.Attribute) and f.attr in ("addDetail", "addDetailUniqueName") and call.args:
+            out = []
+            for r in interp.eval(call.args[0], st, fr):
+                if r.kind == "exc":
+                    out.append(r)
+                    continue
+                if f.attr == "addDetail":
+                    owner = ("ddict", dotted(f.value) or "?")
+                    fresh = r.value == ("fresh", owner) or r.value == ("const", "reason")
+                    self.writes.setdefault(id(call), []).append((fresh, r.value))
+                out.append(val(NONE, r.state))
+            return out
+        hit = interp.auto_inline(call, st, fr, self.classes)
+        if hit is not None:
+            return hit
+        out = []
+        for r in interp.eval_list([a for a in call.args if not isinstance(a, ast.Starred)] + [k.value for k in call.keywords], st, fr):
+            out.append(r if r.kind == "exc" else val(TOP, r.state))
+        return out
+
+    def iter_kind(self, value):
+        return "nonempty" if value == ("infinite",) else super().iter_kind(value)
+
+    def for_step(self, interp, stmt, itervalue, st, fr, first):
+        if itervalue == ("infinite",):
+            return True, False
+        return None
+
+    def refine(self, interp, test, st, fr, truth):
+        if isinstance(test, ast.Compare) and len(test.ops) == 1 and isinstance(test.ops[0], (ast.In, ast.NotIn)) and isinstance(test.left, ast.Name):
+            absent = truth == isinstance(test.ops[0], ast.NotIn)
+            for r in interp.eval(test.comparators[0], st, fr):
+                if r.kind == "val" and isinstance(r.value, tuple) and r.value[:1] == ("ddict",):
+                    key = fr.local(test.left.id)
+                    return st.set(key, ("fresh", r.value)) if absent else st
+        return st
+
+    def store_subscript(self, target, value, st, fr, interp):
+        for r in interp.eval_list([target.value, target.slice], st, fr):
+            if r.kind == "val" and isinstance(r.value[0], tuple) and r.value[0][:1] == ("ddict",):
+                self.writes.setdefault(id(target), []).append((r.value[1] == ("fresh", r.value[0]), r.value[1]))
+        return st
+
+    def constant(self, node):
+        return ("const", node.value)
+
+    def truth(self, value):
+        if isinstance(value, tuple) and len(value) == 2 and value[0] == "const" and not isinstance(value[1], str):
+            return "T" if value[1] else "F"
+        if isinstance(value, tuple) and len(value) == 2 and value[0] == "const":
+            return "T" if value[1] else "F"
+        return super().truth(value)
+
+    def is_none(self, value):
+        if isinstance(value, tuple) and len(value) == 2 and value[0] == "const":
+            return "T" if value[1] is None else "F"
+        return super().is_none(value)
+
+
+class _MismatchDetailsDomain(DefaultDomain):
+    """_matchHelper with a symbolic verdict whose get_details() holds exactly one (name, content) pair."""
+
+    def __init__(self, classes):
+        self.classes = classes
+
+    def truth(self, value):
+        if value == ("mismatch",):
+            return "T"
+        return super().truth(value)
+
+    def is_none(self, value):
+        return "F" if value == ("mismatch",) else super().is_none(value)
+
+    def iter_kind(self, value):
+        return "nonempty" if value == ("detail-items",) else super().iter_kind(value)
+
+    def for_step(self, interp, stmt, itervalue, st, fr, first):
+        if itervalue == ("detail-items",):
+            return (True, False) if first else (False, True)
+        return None
+
+    def element(self, itervalue, st, node):
+        if itervalue == ("detail-items",):
+            return ("tuple", ("detail-name",), ("detail-content",))
+        return TOP
+
+    def call(self, interp, call, st, fr):
+        f = call.func
+        d = dotted(f) or ""
+        if isinstance(f, ast.Attribute) and f.attr == "match":
+            return [val(NONE, st.set("ev.verdict", "none")), val(("mismatch",), st.set("ev.verdict", "mismatch"))]
+        if isinstance(f, ast.Attribute) and f.attr == "items" and isinstance(f.value, ast.Call) and isinstance(f.value.func, ast.Attribute) and f.value.func.attr == "get_details":
+            return [val(("detail-items",), st)]
+        if isinstance(f, ast.Attribute) and f.attr == "get_details":
+            return [val(("detail-dict",), st)]
+        if isinstance(f, ast.Attribute) and f.attr == "items":
+            out = []
+            for r in interp.eval(f.value, st, fr):
+                out.append(r if r.kind == "exc" else val(("detail-items",) if r.value == ("detail-dict",) else TOP, r.state))
+            return out
+        if d.endswith("addDetailUniqueName") and len(call.args) == 2:
+            out = []
+            for r in interp.eval_list(list(call.args), st, fr):
+                out.append(r if r.kind == "exc" else val(NONE, r.state.set("ev.added", r.state.get("ev.added", ()) + ((r.value[0], r.value[1]),))))
+            return out
+        hit = interp.auto_inline(call, st, fr, self.classes)
+        if hit is not None:
+            return hit
+        out = []
+        for r in interp.eval_list([a for a in call.args if not isinstance(a, ast.Starred)] + [k.value for k in call.keywords], st, fr):
+            out.append(r if r.kind == "exc" else val(NOTNONE, r.state))
+        return out
+
+
+def unique_write_verdicts(ctx, func, receiver, argvals):
+    """{id(write node): [(fresh?, name value)]} over an abstract run of func."""
+    dom = _UniqueDomain(ctx.classes)
+    it = Interp(dom, max_depth=4)
+    it.analyze(func, argvals, State(), receiver=receiver, name=getattr(func, "name", "?"))
+    ctx.stats["states"] += it.steps
+    for fn in it.functions:
+        ctx.analysed(fn)
+    return dom.writes
 
 
 def guard_for_write(func, write_stmt, name_expr, dict_exprs):
@@ -162,13 +307,23 @@ def run(ctx):
             if in_loop:
                 why += " inside a loop: a second iteration overwrites the first detail"
         else:
-            ok, why = guard_for_write(f, stmt, name, dict_exprs)
+            cls_node = getattr(f, "_class", None)
+            recv_cls = classes.get(m.name, cls_node.name) if cls_node is not None else None
+            verdicts = unique_write_verdicts(ctx, f, recv_cls, {}).get(id(c), [])
+            bad = [v for fresh, v in verdicts if not fresh]
+            ok = bool(verdicts) and not bad
+            why = ("the write is never reached on the abstract run" if not verdicts else "" if not bad else
+                   f"on some path the name written is `{bad[0]!r}`, not a name just found absent from {recv}.getDetails() (no `not in` test on the same dict decides the write)")
         ctx.check("R-UNIQUE-WRITE", f"{m.name.split('.')[-1]}:{f.name}: addDetail({norm(name)[:40]}, ...)", c, ok,
                   f"{why}; use addDetailUniqueName", construct=f"{m.name}:{f.name}::addDetail({norm(name)[:50]})")
     gd = module_function(ctx, TESTCASE, "gather_details")
     writes = [s for s in ast.walk(gd) if isinstance(s, ast.Assign) and isinstance(s.targets[0], ast.Subscript) and dotted(s.targets[0].value) == gd.args.args[1].arg]
+    gd_verdicts = unique_write_verdicts(ctx, gd, None, {gd.args.args[0].arg: ("source-dict",), gd.args.args[1].arg: ("ddict", "target")})
     for w in writes:
-        ok, why = guard_for_write(gd, w, w.targets[0].slice, {gd.args.args[1].arg})
+        verdicts = gd_verdicts.get(id(w.targets[0]), [])
+        bad = [v for fresh, v in verdicts if not fresh]
+        ok = bool(verdicts) and not bad
+        why = "the write is never reached on the abstract run" if not verdicts else "" if not bad else f"on some path the key written is `{bad[0]!r}`, not a name just found absent from the target dict"
         ctx.check("R-UNIQUE-WRITE", f"gather_details: {norm(w.targets[0])} = ...", w, ok, f"{why}: a fixture detail can overwrite an existing detail of the same name",
                   construct=f"{TESTCASE}:gather_details::write")
     ctx.check("R-UNIQUE-WRITE", "gather_details writes the target dict", gd, len(writes) == 1, f"{len(writes)} writes found", construct=f"{TESTCASE}:gather_details::writes")
@@ -215,7 +370,7 @@ def run(ctx):
     # reported on every path of the "not a signal class" side and on none of the other
     ok = False
     tests = [n for n in g.nodes if n.id in lv and n.kind == "test" and isinstance(n.ast.test, ast.Compare) and isinstance(n.ast.test.ops[0], (ast.In, ast.NotIn))
-             and isinstance(n.ast.test.comparators[0], (ast.List, ast.Tuple, ast.Set)) and norm(n.ast.test.left).startswith(oe.args.args[1].arg + "[0]")]
+             and literal_elements(n.ast.test.comparators[0], n.ast) is not None and norm(n.ast.test.left).startswith(oe.args.args[1].arg + "[0]")]
     if len(tests) == 1 and tb:
         t = tests[0]
         loud = "true" if isinstance(t.ast.test.ops[0], ast.NotIn) else "false"
@@ -268,14 +423,23 @@ def run(ctx):
 
     # ------------------------------------------------------------------ mismatch details
     mh = own_method(ctx, TESTCASE, "TestCase", "_matchHelper")
-    loops = [l for l in walk_shallow(mh, include_self=False) if isinstance(l, ast.For) and norm(l.iter).endswith(".get_details().items()")]
-    ok = False
-    if len(loops) == 1 and isinstance(loops[0].target, ast.Tuple):
-        a, b = (dotted(e) for e in loops[0].target.elts)
-        calls = [c for c in walk_shallow(loops[0]) if isinstance(c, ast.Call) and dotted(c.func) == "self.addDetailUniqueName"]
-        ok = len(calls) == 1 and [dotted(x) for x in calls[0].args] == [a, b] and not any(isinstance(x, (ast.If, ast.Break, ast.Continue, ast.Return)) for x in walk_shallow(loops[0]))
-    ctx.check("R-MISMATCH-DETAILS", "_matchHelper adds every mismatch detail through addDetailUniqueName", mh, ok,
-              "mismatch details are not each attached under a unique name", construct=f"{TESTCASE}:TestCase._matchHelper::details")
+    tc_cls = classes.get(TESTCASE, "TestCase")
+    dom = _MismatchDetailsDomain(classes)
+    it = Interp(dom, max_depth=4)
+    res = it.analyze(mh, {}, State([("ev.added", ())]), receiver=tc_cls, name="_matchHelper")
+    ctx.stats["states"] += it.steps
+    for fn in it.functions:
+        ctx.analysed(fn)
+    outs = {(r.kind, r.state.get("ev.verdict", "?"), r.state.get("ev.added", ())) for r in res}
+    want_pair = ((("detail-name",), ("detail-content",)),)
+    problems = []
+    for kind, verdict, added in outs:
+        if verdict == "mismatch" and added != want_pair:
+            problems.append(f"with a mismatch carrying one detail, addDetailUniqueName is called {len(added)} time(s) with {added!r}")
+        if verdict == "none" and added:
+            problems.append("details are attached although the matcher matched")
+    ctx.check("R-MISMATCH-DETAILS", "_matchHelper adds every mismatch detail through addDetailUniqueName", mh, bool(outs) and not problems and any(v == "mismatch" for _, v, _ in outs),
+              "mismatch details are not each attached under a unique name: " + "; ".join(sorted(set(problems))), construct=f"{TESTCASE}:TestCase._matchHelper::details")
     et = own_method(ctx, TESTCASE, "TestCase", "expectThat")
     calls = [c for c in walk_shallow(et, include_self=False) if isinstance(c, ast.Call) and dotted(c.func) == "self.addDetailUniqueName"]
     ctx.check("R-MISMATCH-DETAILS", "expectThat records the failed expectation under a unique name", et, len(calls) == 1 and str_const(calls[0].args[0]) is not None,
